@@ -707,7 +707,7 @@ pub fn run_real(prop: &str, tier: &str, seed: u64, threads: usize, known: &Known
         "C12" => run_c12(tier, seed, threads, known),
         "C13" => run_c13_conformance(tier, seed, threads),
         "C18" => run_c18_real_env(tier),
-        "C05" | "C15" => run_real_docs(prop, doc_class(prop), threads),
+        "C05" | "C15" | "C20" => run_real_docs(prop, doc_class(prop), threads),
         "C14" => run_real_docs(prop, doc_class(prop), 1),
         _ => RealReport::default(),
     }
@@ -1418,6 +1418,17 @@ fn doc_cases(prop: &str) -> Vec<DocCase> {
                 out.push(DocCase { real_doc: true, property: "C14".into(), script_mode: false, skip_code: None, tests, expect: "codes:0,0".into(), env: BTreeMap::new(), timeout_ms });
             }
         }
+        "C20" => {
+            // every command runs once, and the run is not given up, whatever the expressions end in
+            // (what bash makes of the compiled script only real bash shows)
+            for script_mode in [true, false] {
+                for e in ["true \\", "echo mid \\", "echo mid # comment", "echo mid;", "echo mid &&\n  true", ": \\\n  continued \\"] {
+                    let exp: Vec<&str> = if e.starts_with("echo mid") { vec!["mid"] } else { vec![] };
+                    let tests = vec![t("echo first", &["first"], None), t(e, &exp, None), t("echo last", &["last"], None)];
+                    out.push(DocCase { real_doc: true, property: "C20".into(), script_mode, skip_code: None, tests, expect: "codes:0,0,0".into(), env: BTreeMap::new(), timeout_ms: BTreeMap::new() });
+                }
+            }
+        }
         "C15" => {
             // scrut itself started in an environment that changes how every bash behaves
             for (k, v) in [("POSIXLY_CORRECT", "1"), ("SHELLOPTS", "posix"), ("BASH_ENV", "/nonexistent/bashrc"), ("ENV", "/nonexistent/shrc"), ("BASH_COMPAT", "4.4")] {
@@ -1535,6 +1546,7 @@ pub fn doc_class(prop: &str) -> &'static str {
         "C05" => "passed-without-exit-code-real",
         "C12" => "state-differs-real",
         "C14" => "timeout-reported-for-finished-command-real",
+        "C20" => "execution-error-without-cause-real",
         _ => "skip-code-not-honoured-real",
     }
 }
